@@ -35,11 +35,14 @@ func smallEnv(e tmpl.Env) bool {
 
 func init() {
 	register("C15", "other", func(c *Ctx) {
-		c.Run.Explainf("C15 (regeneration stable in the presence of earlier output) — only the structural core of the second sentence is decided: in the run function of package main (found by role: the error-returning function main tests), on every path on which -rm and -out are set, os.Remove of exactly the -out path executes before moq.New, the only entry to the package loader (go/cfg reachability with the Remove node deleted and branches pruned by the flag assumptions); an error other than not-exist aborts before the load; a successful removal continues to it. NOT decided: the fixed-point sentence (whether aliases harvested from moq's own previous output reproduce the same output depends on the values the alias algorithm computes).")
+		c.Run.Explainf("C15 (regeneration stable in the presence of earlier output) — only the structural core of the second sentence is decided: in the run function of package main (found by role: the error-returning function main tests), on every path on which -rm and -out are set, os.Remove of exactly the -out path executes before moq.New, the only entry to the package loader (go/cfg reachability with the Remove node deleted and branches pruned by the flag assumptions); an error other than not-exist aborts before the load; a successful removal continues to it. Two necessary conditions of the first sentence are decided as well: the -out file is replaced as a whole (a single os.WriteFile of the complete buffer; no other file-writing API in package main) and a new import starts with exactly the alias the loaded source files — moq's previous output included — use for its canonical path. NOT decided: the fixed-point sentence (whether aliases harvested from moq's own previous output reproduce the same output depends on the values the alias algorithm computes).")
 		c.Run.Assumef("os.Remove, errors.Is/os.ErrNotExist behave as documented; packages are loaded only through moq.New (checked: it is the only call into pkg/moq before generation)")
 		if cl := cli(c); cl != nil {
 			gen.CheckRemove(c.Run, c.Prog, cl)
+			gen.CheckFileReplaced(c.Run, c.Prog, cl)
 		}
+		// the aliases moq reads back from its own earlier output: a new import starts with exactly the alias found in the source files
+		gen.CheckImports(c.Run, c.Prog)
 		c.Run.Floor("G-RM/before-load", 1)
 		c.Run.Floor("G-RM/error", 2)
 	})
